@@ -84,8 +84,9 @@ func (c03) Generate(c *Ctx) []any {
 		nm := 1 + r.Intn(3)
 		in.Generic = r.Intn(4) == 0
 		in.Decoy = i%4 != 3
+		bNames := bNamesFor(r, i)
 		for k := 0; k < nm; k++ {
-			m := genBMethod(r, bMethodNames[k])
+			m := genBMethod(r, bNames[k])
 			if i%2 == 0 && k == 0 && m.Variadic < 0 {
 				m.Variadic = pick(r, bVariadicSlices) // every other scenario has a variadic method
 			}
